@@ -14,7 +14,9 @@ MANIFEST = {
  'technique': 'Lean 4 proof (invariants by induction over arbitrary server message sequences; deadlock-freedom against a formal conformant-server relation) + table extraction + differential correspondence',
  'design_ref': 'DESIGN.md §6 C08',
 }
-THEOREMS = []
+THEOREMS = ['C08.req_subset', 'C08.wanted_bounded', 'C08.echo_needs_label', 'C08.sasl_payload_invited',
+            'C08.sasl_entered_by_ack', 'C08.sasl_after_ack', 'C08.saslAcked_only_by_ack', 'C08.cap_end_once',
+            'C08.cap_end_counted', 'C08.cap_end_from_negotiation', 'C08.cap_end_outstanding_witness', 'C08.reset_fresh']
 TRUSTED = ['Lean 4.33.0 kernel; axioms ⊆ {propext, Classical.choice, Quot.sound}',
            'harness/extractors/conn.py (FSM states and guards, expect_state lists, REQUEST_CAPABILITIES, _nickSetters, MAX_LINE_SIZE, AUTHENTICATE_CHUNK_SIZE → Gen/Conn.lean)',
            'harness/c08.py: script generators, stub driver, canonical observation, hex line protocol',
@@ -607,9 +609,49 @@ def tags_of(run):
             t.add('drv:' + c[0] + (':wait' if c[0] == 'reconnect' and c[1] else '') + (':server' if c[0] == 'reconnect' and c[2] else ''))
     return sorted(t)
 
+def _is_cap_sub(line, subs):
+    t = line.split(' ')
+    if t and t[0].startswith(':'):
+        t = t[1:]
+    return len(t) >= 3 and t[0].upper() == 'CAP' and t[2].upper() in subs
+
+def finding_capend_outstanding(run, bad):
+    """class of KNOWN_FINDINGS C08-capend-outstanding: the only violated predicate is `cap_end_outstanding`
+    and the server sent CAP NEW or CAP DEL earlier in the same connection epoch"""
+    if not bad or any(p != 'cap_end_outstanding' for p, _ in bad):
+        return False
+    seen = False
+    for op, o in zip(run.ops, run.obs[1:]):
+        if op[0] == 'reset':
+            seen = False
+            continue
+        if _is_cap_sub(op[1], ('NEW', 'DEL')):
+            seen = True
+        if o is not None and any(m.command == 'CAP' and m.args[:1] == ('END',) for m in o.msgs):
+            if not (o.req <= (o.ack | o.nak)) and not seen:
+                return False
+    return True
+
 def classify_finding(run, bad):
     """known-finding classes (predicates on the script); None = not in any class"""
+    if finding_capend_outstanding(run, bad):
+        return 'C08-capend-outstanding'
     return None
+
+def finding_status():
+    """replay the listed witnesses on the real code"""
+    out = {}
+    for f in verdict.load_findings(PROPERTY):
+        if f['id'] == 'C08-capend-outstanding':
+            w = f['witness']
+            hits = 0
+            for ops in (w['ops'], w['second']):
+                run = run_impl(w['cfg'] if ops is w['ops'] else {}, [tuple(op) for op in ops])
+                bad = safety_oracle(run.ops, run.obs)
+                if any(p == 'cap_end_outstanding' for p, _ in bad):
+                    hits += 1
+            out[f['id']] = (hits > 0, 'CAP END sent while a CAP REQ is unanswered after CAP NEW during SASL / CAP DEL + second CAP LS (%d of 2 witnesses reproduce)' % hits)
+    return out
 
 class XCase(Case):
     """Case + the model op lines of the script"""
@@ -696,7 +738,7 @@ def run(ctx):
         os.environ['VERIF_SEED'] = str(ctx.seed)
         return [c for c in more if c.oracle_ok is False]
     return verdict.conclude(PROPERTY, ctx.tier, ctx.seed, build, cases, search=search, rule=RULE,
-                            finding_status={}, trusted_base=TRUSTED, assumptions=ASSUMPTIONS, t0=ctx.t0)
+                            finding_status=finding_status(), trusted_base=TRUSTED, assumptions=ASSUMPTIONS, t0=ctx.t0)
 
 def replay(ctx, path):
     d = json.load(open(path))
